@@ -365,7 +365,7 @@ impl Ord for Uri {
 
 impl Hash for Uri {
 	fn hash<H: hash::Hasher>(&self, state: &mut H) {
-		self.parts().hash(state)
+		self.as_uri_ref().hash(state)
 	}
 }
 
